@@ -20,3 +20,128 @@ func H_C16_PacketRoundTrip() {
 	vAssert(vEqBytes(rest, payload), "c16.pkt.payload")
 	vCover("c16.pkt.roundtrip")
 }
+
+func init() {
+	vRegister("H_C16_StreamRoundTrip", H_C16_StreamRoundTrip)
+	vRegister("H_C16_Hostile", H_C16_Hostile)
+	vRegister("H_C16_Isolation", H_C16_Isolation)
+	vRegister("H_C16_TooLong", H_C16_TooLong)
+}
+
+// C16 codec, stream side: header + payload survive any fragmentation.
+func H_C16_StreamRoundTrip() {
+	lens := []int{0, 1, 2, 16, 255}
+	if vTier() == 1 {
+		lens = nil
+		for i := 0; i <= 255; i++ {
+			lens = append(lens, i)
+		}
+	}
+	ll := lens[vPick(len(lens))]
+	label := string(vBytes(ll))
+	payload := vBytes(vPick(4))
+	// without a header, a first payload byte equal to the magic value is indistinguishable from one
+	if ll == 0 && len(payload) > 0 {
+		vAssume(payload[0] != byte(hasLabelMsg))
+	}
+	w := &vConn{}
+	vAssert(AddLabelHeaderToStream(w, label) == nil, "c16.str.add-ok")
+	w.out = append(w.out, payload...)
+	r := &vConn{in: w.out, frag: []int{0, 1, 2, 3, 7}[vPick(5)]}
+	conn, got, err := RemoveLabelHeaderFromStream(r)
+	vAssert(err == nil, "c16.str.remove-ok")
+	if err != nil {
+		return
+	}
+	vAssert(vEqStr(got, label), "c16.str.label")
+	buf := make([]byte, 8)
+	var rest []byte
+	for i := 0; i < 8; i++ {
+		n, rerr := conn.Read(buf)
+		rest = append(rest, buf[:n]...)
+		if rerr != nil {
+			break
+		}
+	}
+	vAssert(vEqBytes(rest, payload), "c16.str.payload")
+	vCover("c16.str.roundtrip")
+}
+
+// C16: truncated / malformed headers give an error or a clean result, never a panic.
+func H_C16_Hostile() {
+	b := vBytes(vPick(7))
+	if vPick(2) == 0 {
+		rest, label, err := RemoveLabelHeaderFromPacket(b)
+		if err == nil && len(b) > 0 && b[0] == byte(hasLabelMsg) {
+			vAssert(len(label) >= 1 && len(label) == int(b[1]) && len(rest) == len(b)-2-len(label), "c16.hostile.pkt-accounting")
+		}
+		if len(b) > 0 && b[0] != byte(hasLabelMsg) {
+			vAssert(err == nil && label == "" && vEqBytes(rest, b), "c16.hostile.pkt-unlabelled-untouched")
+		}
+		vCover("c16.hostile.pkt")
+	} else {
+		conn, label, err := RemoveLabelHeaderFromStream(&vConn{in: b, frag: vPick(3)})
+		if err == nil {
+			vAssert(conn != nil, "c16.hostile.str-conn")
+			if len(b) > 0 && b[0] == byte(hasLabelMsg) {
+				vAssert(len(label) >= 1, "c16.hostile.str-nonempty-label")
+			}
+		}
+		vCover("c16.hostile.str")
+	}
+}
+
+func H_C16_TooLong() {
+	label := string(vBytes(256))
+	_, err := AddLabelHeaderToPacket(vBytes(1), label)
+	vAssert(err != nil, "c16.toolong.pkt")
+	w := &vConn{}
+	vAssert(AddLabelHeaderToStream(w, label) != nil && len(w.out) == 0, "c16.toolong.str")
+	vCover("c16.toolong")
+}
+
+// C16 isolation: a node acts on traffic only if it carries exactly its own label (no header at all for an
+// unlabelled node or one that delegates the check to an outer layer).
+func H_C16_Isolation() {
+	conf := vBaseConfig()
+	mine := string(vBytes(vPick(3)))
+	conf.Label = mine
+	conf.SkipInboundLabelCheck = vBool()
+	f := vNewML(conf)
+	f.del = &vDelegateRec{}
+	conf.Delegate = f.del
+	f.vAddSelf(3, nil)
+	theirs := string(vBytes(vPick(4))) // "" = no header on the wire
+	same := vEqStr(theirs, mine)
+	var accept bool
+	if conf.SkipInboundLabelCheck {
+		accept = theirs == ""
+	} else {
+		accept = same
+	}
+	if vPick(2) == 0 {
+		body := []byte{byte(userMsg), vU8()}
+		pkt := body
+		if theirs != "" {
+			pkt = makeLabelHeader(theirs, body)
+		}
+		f.m.ingestPacket(pkt, vAddr("10.0.0.9:1"), vNow())
+		n := f.m.lowPriorityMsgQueue.Len()
+		vAssert((n == 1) == accept, "c16.iso.pkt-acted-iff-own-label")
+		vAssert(len(f.tr.packets) == 0, "c16.iso.pkt-no-reply")
+		vCover("c16.iso.pkt")
+	} else {
+		pbuf, err := encode(pingMsg, &ping{SeqNo: vU32(), Node: vSelf}, false)
+		vAssert(err == nil, "c16.iso.encode")
+		in := pbuf.Bytes()
+		if theirs != "" {
+			in = makeLabelHeader(theirs, in)
+		}
+		conn := &vConn{in: in, frag: vPick(2)}
+		f.m.handleConn(conn)
+		replied := len(conn.out) > 0
+		vAssert(replied == accept, "c16.iso.str-acted-iff-own-label")
+		vAssert(conn.closed >= 1, "c16.iso.str-closed")
+		vCover("c16.iso.str")
+	}
+}
